@@ -172,7 +172,8 @@ Proof. exact wstep_refused_lemma. Qed.
 Print Assumptions wstep_refused.
 
 Theorem world_detach : forall w o,
-  detaches o -> accepted w o = true -> w_has_static w = false -> world_can_id (wstep w o) = w_id w.
+  detaches o -> accepted w o = true -> w_iface_removed w = false -> w_has_static w = false ->
+  world_can_id (wstep w o) = w_id w.
 Proof. exact world_detach_lemma. Qed.
 Print Assumptions world_detach.
 
@@ -251,3 +252,22 @@ Theorem world_nil_builder : forall w,
   world_can_id (wstep w WSetBuilderNil) = calculate default_ops (w_prio w) (w_id w) (w_node_id w).
 Proof. exact world_nil_builder_lemma. Qed.
 Print Assumptions world_nil_builder.
+
+(* gateway node: the message sent through the node's SECOND interface, which is on another bus, is
+   not touched by anything done to the first bus / interface / message: every operation except
+   Node.RemoveInterface keeps that interface on its bus, and RemoveInterface only reaches it once
+   the first interface is gone *)
+Theorem gateway_frame : forall w o,
+  o <> WRemoveInterface -> w_gw_on_bus (wstep w o) = w_gw_on_bus w.
+Proof. exact gateway_frame_lemma. Qed.
+Print Assumptions gateway_frame.
+
+Theorem gateway_remove_first : forall w,
+  w_iface_removed w = false -> w_gw_on_bus (wstep w WRemoveInterface) = w_gw_on_bus w.
+Proof. exact gateway_remove_first_lemma. Qed.
+Print Assumptions gateway_remove_first.
+
+Theorem gateway_cases : forall w,
+  gateway_can_id w = if w_gw_on_bus w then calculate default_ops 0 (w_gw_id w) (w_node_id w) else w_gw_id w.
+Proof. exact gateway_cases_lemma. Qed.
+Print Assumptions gateway_cases.
